@@ -948,7 +948,21 @@ func (in *Interp) run(fr *frame) Value {
 				in.store(in.get(fr, i.Addr), in.get(fr, i.Val))
 			case *ssa.TypeAssert:
 				in.set(fr, i, in.typeAssert(i, in.get(fr, i.X)))
-			case *ssa.Go, *ssa.Select, *ssa.Send, *ssa.MakeChan:
+			case *ssa.MakeChan:
+				sz := in.get(fr, i.Size).(*smt.Term)
+				if !sz.Const || sz.SInt() < 0 || sz.SInt() > 1<<16 {
+					in.end("unmodelled", "make(chan) with a symbolic or huge capacity at %s", in.where())
+				}
+				o := in.newObject(i.Type(), &ChanV{Cap: int(sz.SInt())}, "chan")
+				in.set(fr, i, &Ptr{Obj: o})
+			case *ssa.Send:
+				ch := in.chanOf(in.get(fr, i.Chan))
+				if !in.chanSend(ch, in.get(fr, i.X)) {
+					in.end("unmodelled", "send on a full channel would block for ever in a single-threaded run at %s", in.where())
+				}
+			case *ssa.Select:
+				in.set(fr, i, in.selectOp(fr, i))
+			case *ssa.Go:
 				in.end("unmodelled", "UNMODELLED concurrency instruction %T at %s", ins, in.where())
 			case *ssa.Panic:
 				v := in.get(fr, i.X)
@@ -1067,6 +1081,13 @@ func (in *Interp) unop(i *ssa.UnOp, x Value) Value {
 		if t, ok := x.(*smt.Term); ok {
 			return smt.BVNot(t)
 		}
+	case token.ARROW:
+		ch := in.chanOf(x)
+		v, ok := in.chanRecv(ch, i.Type(), i.CommaOk)
+		if !ok {
+			in.end("unmodelled", "receive from an empty channel would block for ever in a single-threaded run at %s", in.where())
+		}
+		return v
 	}
 	in.end("unmodelled", "UNMODELLED unary op %s on %T at %s", i.Op, x, in.where())
 	return nil
@@ -1100,6 +1121,96 @@ func (in *Interp) typeAssert(i *ssa.TypeAssert, x Value) Value {
 			dyn = ifc.T.String()
 		}
 		in.goPanic("interface conversion: %s is %s, not %s", i.X.Type(), dyn, i.AssertedType)
+	}
+	return res
+}
+
+// ---- channels (single-threaded semantics: buffered FIFO; anything that would block ends the path) ----
+
+func (in *Interp) chanOf(v Value) *ChanV {
+	p, _ := v.(*Ptr)
+	if p == nil {
+		in.end("unmodelled", "operation on a nil channel blocks for ever at %s", in.where())
+	}
+	c, ok := p.Obj.V.(*ChanV)
+	if !ok {
+		in.end("internal", "channel operation on %T", p.Obj.V)
+	}
+	return c
+}
+
+func (in *Interp) chanSend(c *ChanV, v Value) bool {
+	if c.Closed {
+		in.goPanic("send on closed channel")
+	}
+	if len(c.Buf) >= c.Cap {
+		return false
+	}
+	c.Buf = append(append([]Value{}, c.Buf...), v)
+	return true
+}
+
+func (in *Interp) chanRecv(c *ChanV, t types.Type, commaOk bool) (Value, bool) {
+	elem := t
+	if commaOk {
+		elem = t.(*types.Tuple).At(0).Type()
+	}
+	var v Value
+	okv := smt.True
+	switch {
+	case len(c.Buf) > 0:
+		v = c.Buf[0]
+		c.Buf = append([]Value{}, c.Buf[1:]...)
+	case c.Closed:
+		v, okv = zeroValue(elem), smt.False
+	default:
+		return nil, false
+	}
+	if commaOk {
+		return Tuple{v, okv}, true
+	}
+	return v, true
+}
+
+// selectOp: the first ready case in source order (Go picks any ready case; the order is fixed here), the default
+// case when none is ready, a dead end when there is no default.
+func (in *Interp) selectOp(fr *frame, i *ssa.Select) Value {
+	res := make(Tuple, 2+0)
+	idx := -1
+	var recvVal Value
+	recvOK := smt.False
+	for k, st := range i.States {
+		c := in.chanOf(in.get(fr, st.Chan))
+		if st.Dir == types.SendOnly {
+			if len(c.Buf) < c.Cap && !c.Closed {
+				in.chanSend(c, in.get(fr, st.Send))
+				idx = k
+				break
+			}
+			continue
+		}
+		if len(c.Buf) > 0 || c.Closed {
+			et := st.Chan.Type().Underlying().(*types.Chan).Elem()
+			v, _ := in.chanRecv(c, et, false)
+			recvVal, recvOK = v, smt.Bool(!c.Closed || true)
+			idx = k
+			break
+		}
+	}
+	if idx < 0 && i.Blocking {
+		in.end("unmodelled", "select without a ready case blocks for ever in a single-threaded run at %s", in.where())
+	}
+	// result tuple: (index, recvOk, r_0 ... r_{n-1}) with one r per receive state
+	res = Tuple{smt.BV(uint64(int64(idx)), 64), recvOK}
+	for k, st := range i.States {
+		if st.Dir == types.RecvOnly {
+			et := st.Chan.Type().Underlying().(*types.Chan).Elem()
+			if k == idx {
+				res = append(res, recvVal)
+			} else {
+				res = append(res, zeroValue(et))
+			}
+		}
 	}
 	return res
 }
